@@ -121,6 +121,10 @@ namespace _ST_PRIVATE
     inline const char *find_cs(const char *haystack, size_t size,
                                const char *needle, size_t needle_size)
     {
+        // An empty needle never matches (and needle[0] may not be readable)
+        if (needle_size == 0)
+            return nullptr;
+
         const char *cp = haystack;
         const char *ep = haystack + size;
         for ( ;; ) {
@@ -137,6 +141,10 @@ namespace _ST_PRIVATE
     inline const char *find_ci(const char *haystack, size_t size,
                                const char *needle, size_t needle_size)
     {
+        // An empty needle never matches (and needle[0] may not be readable)
+        if (needle_size == 0)
+            return nullptr;
+
         const char *cp = haystack;
         const char *ep = haystack + size;
         for ( ;; ) {
